@@ -997,7 +997,8 @@ def run(ctx):
     B = 40
     for a in range(0, len(cases), B):
         _check(ctx, cases[a:a + B])
-    tcases = [c for c in cases if c.get("poly") and not c.get("cgfake") and c.get("maxiter") != 0 and c.get("trust", True)]
+    tcases = [c for c in cases if c.get("poly") and not c.get("cgfake") and c.get("maxiter") != 0 and c.get("trust", True)
+              and not c.get("nan")]        # NaN energies inside _trust_ncg are outside the trust-region model
     _trust_tie(ctx, tcases[:ctx.n(6, 60)])
 
 
